@@ -78,6 +78,10 @@ CHECKS = {
          "deterministic simulation of joins through a member, removals, lost handshake messages (join retried by process restart), zero-group compaction and restart of any/all members; membership model from acknowledged joins/removals; every member's address book compared with the model (ids and announced addresses) after settling and after a restart of all nodes",
          "Seeded search over join/removal histories, message loss during the handshake, compaction and restart points; after convergence every member lists exactly the acknowledged members with the addresses they announced, also after recovering from a snapshot.",
          "A join counts as acknowledged when JoinCluster returned; a removal when RemoveNode returned success (the operator repeats the request otherwise)."),
+ "C12": ("exploration", "DESIGN.md §3 C12, §2.5 World III",
+         "deterministic simulation of a cluster of real servers fed sequences of well-typed hostile requests from a grammar over every RPC; handler panics are caught where the simulated network invokes the real handler, panics / log.Fatal in product goroutines are observed as process death; healthy canary traffic after each request, after a restart of all nodes (log replay) and after compaction + restart (snapshot load)",
+         "Seeded search over request shapes (malformed ids, zero / huge / non-finite values, oversize metadata and batches, unknown datasets and partitions, zero counts, unknown metric) and orders; the oracle is process/handler survival plus a canary that must keep working now and after every replay.",
+         "A handler panic counts as a crash (grpc-go does not recover); byte-level malformed frames are not generated."),
 }
 
 NOT_APPLICABLE = {
